@@ -10,10 +10,12 @@
 //   $ACC(i) account i          $VAL(i) validator operator i      $MOD(name) module account address
 //   $LOCKOF(i,r) r-th lock of account i (0 if none)   $POSOF(i,r) r-th CL position of account i
 //   $LOCK(r) $POS(r) $GAUGE(r) $POOL(r)  any existing id, chosen by r modulo the number of ids
+//   $NEXTPOOL(k) the id the next created pool will get, plus k     $LASTPOOL(k) the newest pool id minus k
 package c19drv
 
 import (
 	"bytes"
+	"context"
 	"crypto/sha256"
 	"encoding/hex"
 	"encoding/json"
@@ -66,6 +68,10 @@ type tcase struct {
 	// ([store, regexp on "<kind>", regexp on the key in hex]); the driver reports them and then copies the original's
 	// entries over, so that the replay of the remaining history is not dominated by their consequences
 	KVKnown [][]string `json:"kv_known"`
+	// after these block indices the node is stopped and started again (new application instance over the same database)
+	RestartAt []int `json:"restart_at"`
+	// run read-only queries (keeper getters on a query context and gRPC queries) after every block
+	Queries bool `json:"queries"`
 }
 
 type txObs struct {
@@ -120,6 +126,7 @@ type obs struct {
 	Blocks  []blockObs  `json:"blocks"`
 	Exports []*exportObs `json:"exports,omitempty"`
 	Final   map[string]string `json:"final"` // module -> sha256 of exported genesis after the last block
+	Restarts []int            `json:"restarts,omitempty"`
 }
 
 func TestDriver(t *testing.T) {
@@ -155,7 +162,7 @@ func evStrings(evs []abci.Event) []string {
 
 func (c *chain) accAddr(i int) sdk.AccAddress { return sdk.AccAddress(accKey(i).PubKey().Address()) }
 
-var phRe = regexp.MustCompile(`\$(ACC|VAL|MOD|LOCKOF|POSOF|LOCK|POS|GAUGE|POOL)\(([A-Za-z0-9_,\-]*)\)`)
+var phRe = regexp.MustCompile(`\$(ACC|VAL|MOD|LOCKOF|POSOF|LOCK|POS|GAUGE|POOL|NEXTPOOL|LASTPOOL)\(([A-Za-z0-9_,\-]*)\)`)
 
 // resolve substitutes the placeholders of a proto-JSON message against the state visible in ctx.
 func (c *chain) resolve(ctx sdk.Context, raw string) string {
@@ -224,6 +231,12 @@ func (c *chain) resolve(ctx sdk.Context, raw string) string {
 			return pick(arg, a.IncentivesKeeper.GetLastGaugeID(ctx))
 		case "POOL":
 			return pick(arg, a.PoolManagerKeeper.GetNextPoolId(ctx)-1)
+		case "NEXTPOOL": // the id the next created pool will get (+ offset)
+			off, _ := strconv.ParseUint(arg, 10, 64)
+			return strconv.FormatUint(a.PoolManagerKeeper.GetNextPoolId(ctx)+off, 10)
+		case "LASTPOOL": // the most recently created pool (- offset)
+			off, _ := strconv.ParseUint(arg, 10, 64)
+			return strconv.FormatUint(a.PoolManagerKeeper.GetNextPoolId(ctx)-1-off, 10)
 		}
 		return m
 	})
@@ -397,11 +410,22 @@ func run(t *testing.T, tc tcase) obs {
 	for _, k := range tc.ExportAt {
 		exportAt[k] = true
 	}
+	restartAt := map[int]bool{}
+	for _, k := range tc.RestartAt {
+		restartAt[k] = true
+	}
 	pend := []*pending{}
 	for i, b := range tc.Blocks {
 		o.Blocks = append(o.Blocks, c.runBlock(b))
 		if i == 0 {
 			c.lateSetup(tc)
+		}
+		if tc.Queries {
+			c.runQueries()
+		}
+		if restartAt[i] {
+			c.restart()
+			o.Restarts = append(o.Restarts, i)
 		}
 		if exportAt[i] {
 			p := c.export(i)
@@ -770,4 +794,40 @@ func protoFieldDiff(a, b string) string {
 		return ""
 	}
 	return ":" + out
+}
+
+// runQueries: read-only traffic of the kind an RPC node serves between blocks - keeper getters on a query context
+// (they go through app.PoolManagerKeeper etc.) and gRPC queries through baseapp (they go through the modules' own keeper
+// copies). Nothing here may influence the next block.
+func (c *chain) runQueries() {
+	defer func() { _ = recover() }()
+	a := c.App
+	qctx, err := a.CreateQueryContext(0, false)
+	if err != nil {
+		return
+	}
+	next := a.PoolManagerKeeper.GetNextPoolId(qctx)
+	for id := uint64(1); id <= next+1; id++ {
+		func() {
+			defer func() { _ = recover() }()
+			_, _ = a.PoolManagerKeeper.GetPoolModule(qctx, id)
+			_, _ = a.PoolManagerKeeper.GetPoolType(qctx, id)
+			if p, err := a.PoolManagerKeeper.GetPool(qctx, id); err == nil {
+				ds, err := a.PoolManagerKeeper.RouteGetPoolDenoms(qctx, id)
+				if err == nil && len(ds) >= 2 {
+					_, _ = a.PoolManagerKeeper.RouteCalculateSpotPrice(qctx, id, ds[0], ds[1])
+					_, _ = a.TwapKeeper.GetArithmeticTwapToNow(qctx, id, ds[0], ds[1], qctx.BlockTime().Add(-time.Minute))
+				}
+				_ = p
+			}
+		}()
+	}
+	_ = a.ProtoRevKeeper.GetAllProfits(qctx)
+	for _, path := range []string{"/osmosis.poolmanager.v1beta1.Query/NumPools", "/osmosis.poolmanager.v1beta1.Query/AllPools",
+		"/osmosis.poolmanager.v1beta1.Query/AllTakerFeeShareAgreements", "/osmosis.incentives.Query/Gauges", "/osmosis.epochs.v1beta1.Query/EpochInfos"} {
+		func() {
+			defer func() { _ = recover() }()
+			_, _ = a.Query(context.Background(), &abci.RequestQuery{Path: path})
+		}()
+	}
 }
